@@ -17,6 +17,7 @@ import IocProofs.Lemmas.Registry
 import IocProofs.Lemmas.M2RefinesM1
 import Ioc.RegistrySkel
 import Ioc.Generated.Facts
+import IocProofs.Lemmas.SemRegistry
 namespace Ioc.C04
 open Ioc Ioc.Reg
 
@@ -240,5 +241,53 @@ example : (execs Reg.empty [.getOrCreate 1 (.ok ⟨1, 0⟩) [] (.error .fail), .
     [.begin 1, .ret 1 .err false false, .begin 1, .ret 1 (.obj ⟨1, 2⟩) false false, .ret 1 (.obj ⟨1, 2⟩) false false] := by decide
 -- the hypothesis of C04_stable is reachable
 example : (execs Reg.empty [.getOrCreate 1 (.ok ⟨1, 0⟩) [] (.ok ⟨1, 2⟩)]).1.l1? 1 = some ⟨1, 2⟩ := by decide
+
+/-! ### the tie to the code: the registry model IS the regenerated program
+
+`Ioc.Progs.reg_*` are the syntax trees of the six methods of container/support/singleton_component_registry.go,
+re-translated from /repo's source on every run (harness/cmd/facts/prog.go) into the MiniGo deep embedding (Ioc.GoSem).
+Run by the MiniGo interpreter with the sync2.Map / ConcurrentSets calls read as map and set operations on the three
+levels (Ioc.SemRegistry), each of them computes exactly the model function all theorems above are about — for EVERY
+registry, name, and behaviour of the factories.  (`C04_registry_skeleton` compares call skeletons only; these compare
+behaviour, including which value is tested, stored and returned.) -/
+
+theorem C04_code_AddSingletonFactory (early : Except Err Obj) (body : Sem.Body) (r : Reg) (n m : Nat) :
+    Go.run (Sem.regPrims early body) Progs.reg_AddSingletonFactory [.int n, .ref m 0] r = some (.tuple [], r.addFactory n) :=
+  Sem.addSingletonFactory_sem early body r n m
+
+theorem C04_code_RemoveSingleton (early : Except Err Obj) (body : Sem.Body) (r : Reg) (n : Nat) :
+    Go.run (Sem.regPrims early body) Progs.reg_RemoveSingleton [.int n] r = some (.tuple [], r.remove n) :=
+  Sem.removeSingleton_sem early body r n
+
+theorem C04_code_AddSingleton (early : Except Err Obj) (body : Sem.Body) (r : Reg) (n : Nat) (o : Obj) :
+    Go.run (Sem.regPrims early body) Progs.reg_AddSingleton [.int n, Sem.encObj o] r = some (.tuple [], r.addSingleton n o) :=
+  Sem.addSingleton_sem early body r n o
+
+theorem C04_code_IsSingletonCurrentlyInCreation (early : Except Err Obj) (body : Sem.Body) (r : Reg) (n : Nat) :
+    Go.run (Sem.regPrims early body) Progs.reg_IsSingletonCurrentlyInCreation [.int n] r = some (.bool (r.isInCreation n), r) :=
+  Sem.isInCreation_sem early body r n
+
+/-- GetSingleton(name, allowEarly) = `Reg.get`: level 1, else level 2, else (when allowed) run the level-3 factory once,
+    move its result to level 2 and drop the factory; an error of the factory stores nothing -/
+theorem C04_code_GetSingleton (early : Except Err Obj) (body : Sem.Body) (r : Reg) (n : Nat) (b : Bool) :
+    Go.run (Sem.regPrims early body) Progs.reg_GetSingleton [.int n, .bool b] r
+      = some (Sem.encGet (r.get n b early).1, (r.get n b early).2) :=
+  Sem.getSingleton_sem early body r n b
+
+/-- GetSingletonOrCreateByFactory(name, factory) = `beginCreate`, the factory's effect, `endCreate` (publication on
+    success, RemoveSingleton on failure) -/
+theorem C04_code_GetSingletonOrCreateByFactory (early : Except Err Obj) (body : Sem.Body) (r : Reg) (n : Nat) :
+    Go.run (Sem.regPrims early body) Progs.reg_GetSingletonOrCreateByFactory [.int n, .ref n 1] r
+      = some (match (r.beginCreate n).1 with
+              | some o => (.tuple [Sem.encObj o, .nil], r)
+              | none =>
+                let x := body (r.beginCreate n).2
+                (Sem.encRes x.1, x.2.endCreate n x.1)) :=
+  Sem.getSingletonOrCreate_sem early body r n
+
+/-- non-vacuity: the regenerated GetSingleton promotes an early reference from level 3 to level 2 -/
+example : Go.run (Sem.regPrims (.ok ⟨1, 5⟩) (fun r => (.error .fail, r))) Progs.reg_GetSingleton [.int 1, .bool true]
+    ({ l3 := [1] } : Reg) = some (.tuple [.ref 1 5, .nil], { l2 := [(1, ⟨1, 5⟩)] }) :=
+  (Sem.getSingleton_sem (.ok ⟨1, 5⟩) (fun r => (.error .fail, r)) { l3 := [1] } 1 true).trans (by rfl)
 
 end Ioc.C04
